@@ -325,10 +325,14 @@ def build(ctx):
         ctx.unit(f"PanopticaResult[{m},tp=0]", lambda m=m: unit_result(ctx, m))
         ctx.unit(f"PanopticaResult[{m},tp>0]", lambda m=m: unit_no_influence(ctx, m))
     ctx.unit("_handle_zero_instances_cases", lambda: unit_zero_cases(ctx))
+    # "zero true positives" presupposes that the per-instance lists hold exactly the true positives (C02's evaluator contract), regenerated here
+    include_stage(ctx, "C02", only=lambda mod, sub: [sub.unit(f"evaluate_matched_instance[{dec}]", lambda dec=dec: mod.unit_eval_matched(sub, dec, ["DSC", "IOU", "ASSD"])) for dec in (None, "IOU", "ASSD")])
     ctx.add_bounded("c08-enum", "c08.bounded")
 
 
 def concretise(ctx, o, r):
+    if (o.info or {}).get("stage"):
+        return stage_concretise(ctx, o, r)
     m = r.get("model") or {}
     gi = lambda k, d=0: model_int(m.get(k, d))
     cfg = {s: max(0, min(4, gi(f"cfg_{s}"))) for s in SCENARIOS}
